@@ -2,7 +2,7 @@
    ParseRawFields returned, what the google-protowire reference walker said, and (for inputs
    built from a tree by the generator's own encoder) that tree. *)
 From Coq Require Import List NArith ZArith Bool.
-From V.C14 Require Import WireModel WireSpec.
+From V.C14 Require Import Exh WireModel WireSpec.
 Import ListNotations.
 Open Scope N_scope.
 
@@ -84,7 +84,6 @@ Definition check_wire (c : wcase) : list nat :=
 Record pcase := { p_op : N; p_v : N; p_w : N; p_payload : bytes;
                   p_out : option bytes;            (* Protowire::encodeXxx result *)
                   p_ref : bytes }.                 (* google protowire Append* *)
-Definition bytes_eqb := list_eqb N.eqb.
 Definition model_prim (c : pcase) : bytes :=
   match p_op c with
   | 0 => append_varint (p_v c)
@@ -112,3 +111,25 @@ Definition check_prim (c : pcase) : list nat :=
     (if bytes_eqb (p_ref c) out then [] else [2%nat]) ++
     (if prim_reads_back c out then [] else [3%nat])
   end.
+
+(* ------------------------------------------------------------------ observation codes (Exh.v) *)
+Definition le2 (n : nat) : bytes := le_bytes 2 (N.of_nat n).
+Fixpoint code_field (f : field) : bytes :=
+  match f with
+  | FVarint n v => [1] ++ le_bytes 4 n ++ le_bytes 8 v
+  | FFixed64 n v => [2] ++ le_bytes 4 n ++ le_bytes 8 v
+  | FFixed32 n v => [3] ++ le_bytes 4 n ++ le_bytes 8 v
+  | FBytes n p => [4] ++ le_bytes 4 n ++ le2 (length p) ++ p
+  | FMsg n fs => [5] ++ le_bytes 4 n ++ le2 (length fs) ++ flat_map code_field fs
+  | FPacked n et vs => [6] ++ le_bytes 4 n ++ [et] ++ le2 (length vs) ++ flat_map (le_bytes 8) vs
+  | FGroup n fs => [7] ++ le_bytes 4 n ++ le2 (length fs) ++ flat_map code_field fs
+  end.
+Definition wire_code (r : res (list field)) : bytes :=
+  match r with
+  | Ok fs => [0] ++ le2 (length fs) ++ flat_map code_field fs
+  | Err e => [err_code e]
+  | OutOfFuel => [255]
+  end.
+Definition wire_exh (msg packed : list N) (pelem : list (N * N)) (maxdepth : Z) (lo hi : N)
+                    (stream : bytes) : list nat :=
+  exh_check (fun d => wire_code (parse_raw msg packed pelem maxdepth d)) lo hi stream.
